@@ -40,6 +40,11 @@ pub trait Model {
     fn at_end(&self, s: &Self::S, path: &[Self::A]);
     /// Follow the default policy from `s` to a terminal state (used at the depth bound).
     fn complete(&self, s: &mut Self::S, path: &mut Vec<Self::A>);
+    /// The action a constant background policy takes in state `s` (lets a model turn the policy
+    /// into its closing phase, e.g. Finish once all input has been offered).
+    fn policy_action(&self, _s: &Self::S, policy: Self::A) -> Self::A {
+        policy
+    }
 }
 
 pub struct Dfs<'m, M: Model> {
@@ -146,11 +151,13 @@ pub struct DevSearch<'m, M: Model> {
     pub stats: Stats,
     pub max_calls: usize,
     pub max_states: u64,
+    /// deviate only at call indexes that are multiples of `stride` (long policy runs)
+    pub stride: usize,
 }
 
 impl<'m, M: Model> DevSearch<'m, M> {
     pub fn new(m: &'m M, policy: M::A, alts: Vec<M::A>, max_calls: usize, max_states: u64) -> Self {
-        DevSearch { m, policy, alts, visited: HashMap::new(), stats: Stats::default(), max_calls, max_states }
+        DevSearch { m, policy, alts, visited: HashMap::new(), stats: Stats::default(), max_calls, max_states, stride: 1 }
     }
 
     fn fresh(&mut self, s: &M::S, remaining: u32) -> bool {
@@ -198,7 +205,7 @@ impl<'m, M: Model> DevSearch<'m, M> {
                 self.stats.capped = true;
                 break;
             }
-            if remaining > 0 {
+            if remaining > 0 && path.len() % self.stride == 0 {
                 for i in 0..self.alts.len() {
                     let a = self.alts[i];
                     let mut t = s.clone();
@@ -210,9 +217,12 @@ impl<'m, M: Model> DevSearch<'m, M> {
                     path.pop();
                 }
             }
-            path.push(self.policy);
+            let pa = self.m.policy_action(&s, self.policy);
+            path.push(pa);
             self.stats.transitions += 1;
-            if !self.m.step(&mut s, self.policy, path) {
+            if !self.m.step(&mut s, pa, path) {
+                // a model may end an execution from inside step (terminal oracle already run)
+                self.stats.executions += 1;
                 break;
             }
         }
